@@ -6,6 +6,7 @@ import (
 	"go/token"
 	"go/types"
 	"os"
+	"path/filepath"
 	"sort"
 	"strings"
 
@@ -203,4 +204,14 @@ func (p *Program) CHA() *callgraph.Graph {
 // IsModuleFunc reports whether fn is a source function of the analysed module.
 func (p *Program) IsModuleFunc(fn *ssa.Function) bool {
 	return fn != nil && fn.Pkg != nil && fn.Pkg.Pkg != nil && strings.HasPrefix(fn.Pkg.Pkg.Path(), Mod) && fn.Blocks != nil
+}
+
+// ReadRepoFile reads a file of the analysed tree (overlay first), by path
+// relative to the repository root - for the one non-Go source a rule looks at.
+func (p *Program) ReadRepoFile(rel string) ([]byte, error) {
+	full := filepath.Join(p.Dir, rel)
+	if b, ok := p.Overlay[full]; ok {
+		return b, nil
+	}
+	return os.ReadFile(full)
 }
